@@ -348,6 +348,10 @@ inductive Step where
       every prophecy with both claim maps, peggy list, pause, fee receiver, blacklist): the step is the identity on the
       model state.  That the real export/import is faithful is tied by the correspondence (`chk carry`). -/
   | restart
+  /-- `n` blocks pass: the EndBlock hooks of the oracle and ethbridge modules run at the current height, the height
+      advances by `n`, their BeginBlock hooks run.  All four hooks are empty (regenerated fact `blockHooks`), and no
+      handler reads the height or the block time: the step is the identity on the model state, however far it jumps. -/
+  | blocks (n : Nat)
   | msg (m : Msg)
 
 structure World where
@@ -357,6 +361,7 @@ structure World where
 def stepWorld (ord : List Group → List Group) (w : World) : Step → World
   | .setVals v => { w with vals := v }
   | .restart => w
+  | .blocks _ => w
   | .msg m => { w with s := (deliver ord w.vals w.s m).1 }
 
 def run (ord : List Group → List Group) (w : World) (steps : List Step) : World := steps.foldl (stepWorld ord) w
